@@ -7,7 +7,7 @@ CONSTANTS
   FixedLines = TRUE
   FixedFwd = TRUE
   KSecondFull = FALSE
-  PosMaxLines = 6
+  PosMaxLines = 5
   NodesHavePos = TRUE
   DevOn = {"byte"}
   YSites = {"oneline"}
